@@ -28,7 +28,7 @@ package jws
 //@   trusted
 //@   results sig, err
 //@   ensures (err == nil) == jwsOK(jwsStr)
-//@   ensures err == nil ==> sig != nil && fresh(sig) && sig.ProtectedHeaders == jwsHeaders(jwsStr) && sig.Payload == jwsPayload(jwsStr) && sig.signature == jwsSig(jwsStr)
+//@   ensures err == nil ==> sig != nil && fresh(sig) && sig.ProtectedHeaders == jwsHeaders(jwsStr) && sig.Payload == jwsPayload(jwsStr) && sig.signature == jwsSig(jwsStr) && sig.joseHeaders == jwsHeaders(jwsStr)
 //
 //@ func signingInput
 //@   trusted
